@@ -683,6 +683,7 @@ func c08Run(c *mon.Ctx, r *mon.Rand) {
 func c08ImmediateClose(c *mon.Ctx, r *mon.Rand) {
 	prev := runtime.GOMAXPROCS(1)
 	defer runtime.GOMAXPROCS(prev)
+	sightings := 0
 	for k := 0; k < 10; k++ {
 		before := reportLoopGoroutines()
 		pr := mon.NewPlainRec(true)
@@ -697,8 +698,17 @@ func c08ImmediateClose(c *mon.Ctx, r *mon.Rand) {
 			c.Violation("close-error-invented", map[string]interface{}{"why": fmt.Sprintf("Close right after construction returned %v", err)})
 		}
 		if alive > 0 {
-			c.Violation("report-loop-alive-when-close-returned", map[string]interface{}{"why": "Close was called right after NewRootScope (one P, the reporting goroutine had not run yet) and returned while that goroutine still existed", "interval_ms": interval.Milliseconds()})
+			sightings++
 		}
 		c.Event("immediate-closes", 1)
+	}
+	// a goroutine that has signalled the wait group and is executing its last
+	// few instructions can be caught alive once in a while (on a loaded machine
+	// the runtime preempts it right there); a reporting goroutine Close does not
+	// wait for is alive in every one of the ten trials
+	if sightings >= 6 {
+		c.Violation("report-loop-alive-when-close-returned", map[string]interface{}{"why": fmt.Sprintf("Close was called right after NewRootScope (one P, the reporting goroutine had not run yet) and returned while that goroutine still existed - in %d of 10 trials", sightings)})
+	} else if sightings > 0 {
+		c.Class("goroutine-seen-in-its-last-instructions", int64(sightings))
 	}
 }
